@@ -58,6 +58,10 @@ type scenario struct {
 	Cons  []con
 	Dyn   []target // removals the explorer may inject mid-run (deviations)
 	Perm  bool     // permutation mode: only delivery order is explored, client runs canonically
+	// client reuse: consumers issued one after the other ON THE SAME CLIENT, each when the previous
+	// ones have completed and nothing is pending or queued any more
+	Seq    []con
+	Window int // >0: fetch window of the consumer client set through hook VerifSetWindow (scaled)
 }
 
 func (p pub) String() string {
@@ -122,6 +126,12 @@ func (sc *scenario) String() string {
 	}
 	for _, x := range sc.Cons {
 		p = append(p, x.String())
+	}
+	for _, x := range sc.Seq {
+		p = append(p, "then-"+x.String())
+	}
+	if sc.Window > 0 {
+		p = append(p, fmt.Sprintf("window%d", sc.Window))
 	}
 	if len(sc.Dyn) > 0 {
 		p = append(p, fmt.Sprintf("dyn%d", len(sc.Dyn)))
@@ -194,7 +204,8 @@ type inst struct {
 	fatal      map[string]int  // Interest name -> fatal results (Nack / engine error) delivered
 	nonces     map[string]bool // (name, nonce) of every Interest the network carried
 	lost       map[string]int  // Interest name -> timeouts of transmissions the network did carry (genuine losses)
-	nonceDrops int             // Interests dropped by the network as duplicates (same name and nonce)
+	seqNext    int
+	nonceDrops int // Interests dropped by the network as duplicates (same name and nonce)
 	dynUsed    []bool
 	dynLog     []string
 	devUsed    int
@@ -330,6 +341,9 @@ func (in *inst) setup(sc *scenario) {
 		panic(err)
 	}
 	vsched.Reset() // the run() goroutines (now vsched tasks) are never run: VerifStep replaces them
+	if sc.Window > 0 {
+		in.cons.VerifSetWindow(sc.Window)
+	}
 	in.dynUsed = make([]bool, len(sc.Dyn))
 	for _, p := range sc.Pubs {
 		in.produce(p)
@@ -576,6 +590,7 @@ func (in *inst) answer(r *request) {
 	if err != nil {
 		panic(fmt.Sprintf("Interest %s expressed by the client does not parse: %v", r.nameS, err))
 	}
+	in.probePrefix(r, interest)
 	var reply []byte
 	replies := 0
 	if in.pe.handler != nil {
@@ -621,6 +636,40 @@ func (in *inst) answer(r *request) {
 		}
 	}
 	in.gcNet()
+}
+
+// probePrefix: MemoryStore.Get(prefix) walks Go maps, whose iteration order is random per walk; a
+// defect that makes the answer depend on that order (first child wins, ...) would otherwise be
+// reported on some runs only and make replays diverge. Before the producer answers a CanBePrefix
+// Interest from a MemoryStore the harness therefore asks the store the same question many times
+// (read-only) and judges EVERY distinct answer with the producer-side oracle. With two children in
+// one map bucket an order flips with probability >= 1/8 per walk: 400 walks miss it with
+// probability < 1e-23. A state in which any answer is wrong is a violation on every run and is not
+// expanded, so no nondeterministic state is ever replayed.
+func (in *inst) probePrefix(r *request, interest ndn.Interest) {
+	if !r.cbp || in.sc.Store != "mem" {
+		return
+	}
+	vers := map[uint64]bool{}
+	for _, p := range in.ref {
+		if r.name.IsPrefix(p.name) {
+			vers[p.ver] = true
+		}
+	}
+	if len(vers) < 2 {
+		return
+	}
+	seen := map[string]bool{}
+	for i := 0; i < 400; i++ {
+		w, err := in.store.Get(interest.Name(), true)
+		if err != nil {
+			continue
+		}
+		if k := string(w); !seen[k] {
+			seen[k] = true
+			in.checkReply(r, interest, w)
+		}
+	}
 }
 
 // checkReply is the producer-side oracle: what the producer's handler answered to an Interest,
@@ -888,6 +937,14 @@ func (in *inst) defaultOp() string {
 			return reqLabel("TO", i, r)
 		}
 	}
+	if in.sc != nil && in.seqNext < len(in.sc.Seq) {
+		for _, rec := range in.recs {
+			if rec.completed == 0 {
+				return "" // an earlier fetch is stuck: reported by final()
+			}
+		}
+		return fmt.Sprintf("Consume@%d %s", in.seqNext, in.sc.Seq[in.seqNext])
+	}
 	return ""
 }
 
@@ -1009,6 +1066,10 @@ func (in *inst) one(name string) {
 		in.fatalResult(in.net[idx(name)], ndn.InterestResultNack)
 	case strings.HasPrefix(name, "Err#"):
 		in.fatalResult(in.net[idx(name)], ndn.InterestResultError)
+	case strings.HasPrefix(name, "Consume@"):
+		c := in.sc.Seq[in.seqNext]
+		in.seqNext++
+		in.consume(c)
 	case strings.HasPrefix(name, "Remove@"):
 		k, _ := strconv.Atoi(name[len("Remove@"):strings.IndexByte(name, '(')])
 		in.dynUsed[k] = true
@@ -1110,7 +1171,7 @@ func (s *sys) Canon(i any) string {
 	}
 	var b strings.Builder
 	b.WriteString(in.sc.String())
-	fmt.Fprintf(&b, "|dyn%v|t+%d|", in.dynLog, vtime.Now().Sub(vtime.Epoch))
+	fmt.Fprintf(&b, "|dyn%v|t+%d|seq%d|", in.dynLog, vtime.Now().Sub(vtime.Epoch), in.seqNext)
 	for _, r := range in.recs {
 		fmt.Fprintf(&b, "rec{%d %d %v %d %v %d}", r.calls, r.completed, r.err != nil, len(r.got), r.expKnown, r.expVer)
 	}
